@@ -382,7 +382,10 @@ def run(ctx):
                     place.append("(%s %d)" % (ctor, o["ix"] if o else 9999))
                     break
             else:
-                other.append(d["msg"])
+                if d["kind"] == "error":
+                    other.append(d["msg"])          # the document is not accepted: not judged
+                else:
+                    ctx.dist("doc-with-a-warning")    # a warning leaves the document accepted: the tree has to be there all the same
         wp = all(well_placed(c, False) for c in t["children"])
         ctx.dist("doc-well-placed" if wp else "doc-with-placement-errors")
         if other:
